@@ -4,6 +4,7 @@ package checks
 import (
 	"fmt"
 	"os"
+	"runtime"
 	"sort"
 	"strconv"
 	"time"
@@ -78,7 +79,9 @@ func Main(id, tier string) int {
 	c.Deadline = c.Start.Add(budget(tier))
 	c.Rep = report.New(id)
 	c.Ev = &report.Evidence{PropertyID: id, Tier: tier, Seed: seed, Level: ck.Level, Coverage: map[string]interface{}{}}
+	stopWatch := watchdog(c)
 	ck.Run(c)
+	close(stopWatch)
 	res := c.Rep.Finish()
 	c.Ev.Violations = res.Violations
 	if res.Known == nil {
@@ -228,4 +231,32 @@ func (c *Ctx) sid() string {
 		return c.StatID
 	}
 	return c.ID
+}
+
+// watchdog aborts the process (exit 2: harness error, never a VIOLATION line) when an execution
+// has been running for 10 minutes or the process holds more than 24 GiB: an infinite loop or
+// unbounded allocation in the code under test would otherwise take the machine down. The
+// suspects are named so that the run can be repeated on the single history.
+func watchdog(c *Ctx) chan struct{} {
+	stop := make(chan struct{})
+	go func() {
+		for {
+			select {
+			case <-stop:
+				return
+			case <-time.After(5 * time.Second):
+			}
+			var ms runtime.MemStats
+			runtime.ReadMemStats(&ms)
+			stuck := explore.InFlight(10 * time.Minute)
+			if ms.Sys > 24<<30 || len(stuck) > 0 {
+				fmt.Printf("harness error: check %s aborted by the watchdog (memory %d MiB, %d executions running for more than 10 minutes)\n", c.ID, ms.Sys>>20, len(stuck))
+				for _, s := range explore.InFlight(30 * time.Second) {
+					fmt.Println("  suspect:", s)
+				}
+				os.Exit(2)
+			}
+		}
+	}()
+	return stop
 }
